@@ -19,12 +19,12 @@ def alignStep (e : Env) (leading : Nat) (acc : Doc × Nat) (l : String) : Doc ×
     let doc := doc ++ hardline
     (if l.utf8ByteSize > leading then doc ++ e.cmt (String.ofList (l.toList.drop leading)) else doc, i + 1)
 
-/-- `align_multiline`. `leading` ≤ number of leading ASCII spaces of every line, so dropping
+/-- `align_multiline` (without the final `.align()`, which `convComment` applies). `leading` ≤ number of leading ASCII spaces of every line, so dropping
 `leading` chars is the byte slice `&line[leading..]`. -/
 def alignMultiline (e : Env) (text : String) : M Doc :=
   match followLeading text with
   | none => reject (.panic "comment.rs:71 get_follow_leading(text).unwrap()")
-  | some leading => pure ((rlines text).foldl (alignStep e leading) (Doc.nil, 0)).1.alignD
+  | some leading => pure ((rlines text).foldl (alignStep e leading) (Doc.nil, 0)).1
 
 def alignSimpleStep (e : Env) (acc : Doc × Nat) (l : String) : Doc × Nat :=
   let (doc, i) := acc
@@ -35,15 +35,29 @@ def alignSimpleStep (e : Env) (acc : Doc × Nat) (l : String) : Doc × Nat :=
 def alignMultilineSimple (e : Env) (text : String) : Doc :=
   (((rlines text).foldl (alignSimpleStep e) (Doc.nil, 0)).1).hang 1
 
+/-- A converted comment: a plain document without indentation steps outside `align` (its
+continuation lines keep the indentation copied from the source — the exemption of C12). -/
+structure CDoc where
+  d : Doc
+  closed : d.closed = true
+
 /-- `comment` / `line_comment` / `block_comment`. -/
-def convComment (e : Env) (n : ANode) : M Doc :=
-  if n.kind == .lineComment then pure (e.cmt n.text)
+def convComment (e : Env) (n : ANode) : M CDoc :=
+  if n.kind == .lineComment then pure ⟨e.cmt n.text, mkText_closed _ _ _⟩
   else if n.kind == .blockComment then
     let text := n.text
-    if (rlines text).length == 0 then pure (e.cmt text)
+    if (rlines text).length == 0 then pure ⟨e.cmt text, mkText_closed _ _ _⟩
     else
       let bullet := ((rlines text).drop 1).all fun l => (trimStart l).startsWith "*"
-      if bullet then pure (alignMultilineSimple e text) else alignMultiline e text
+      if bullet then pure ⟨alignMultilineSimple e text, rfl⟩
+      else do
+        let d ← alignMultiline e text
+        pure ⟨d.alignD, rfl⟩
   else reject (.panic "comment.rs:24 unreachable!")
+
+/-- The comment as a member of the printer's document family (the same at every unit). -/
+def convCommentT (e : Env) (n : ANode) : M Twin.Doc := do
+  let c ← convComment e n
+  pure (Twin.Doc.ofClosed c.d c.closed)
 
 end Typstyle
